@@ -18,7 +18,8 @@ EXPLANATION = (
     '(a reloaded object is re-derived from the stored attributes); (PURE) save does not write into the object; (CODEC) '
     'every encoding applied by the writer has its inverse in the reader. Element-wise equality after the round trip and '
     'unicode coverage are NOT decided.'
-    ' Round 6: (EXH-read) every exit of _read_group comes after the loop over the group attributes.')
+    ' Round 6: (EXH-read) every exit of _read_group comes after the loop over the group attributes.'
+    ' (EXH-save) an unknown file_type is rejected before save removes the existing file.')
 ASSUMPTIONS = ['h5py / pickle semantics are not modelled', 'value types considered: str, ndarray, list, dict, None, iterable, scalar']
 FLOOR = 60
 RULE_FLOORS = {'TAB': 20, 'EXH-value': 6, 'OVERWRITE': 9}
@@ -45,9 +46,45 @@ def run(ctx, obs):
     descriptors_unfiltered(ctx, obs)
     lossless_writers(ctx, obs)
     reader_reads_attributes(ctx, obs)
+    save_rejects_unknown_type(ctx, obs)
 
 
 NUMERIC_TYPES = {'float', 'int', 'complex', 'float64', 'float32', 'int64', 'int32', 'f8', 'f4', 'i8', 'i4', 'double', 'bool'}
+
+
+def save_rejects_unknown_type(ctx, obs, rule='EXH-save'):
+    """save(filename, file_type, overwrite): an existing file may only be removed when something is going to be written in its
+    place.  The writers are chosen by an if / elif chain on file_type; unless that chain ends in a raising else (or the type is
+    validated before), a file_type that matches no arm ('h5', 'hdf', a typo) removes the old file under overwrite=True, writes
+    nothing and reports nothing - the saved object is gone.  The loaders do raise for an unknown type."""
+    prog = ctx.prog
+    from ..rules.common import source_order
+    for q in SAVERS:
+        f = prog.func(q)
+        so = source_order(f.node)
+        rem = [c for c in ast.walk(f.node) if isinstance(c, ast.Call) and _leaf(c.func) == 'remove_file']
+        chains = [n for n in ast.walk(f.node) if isinstance(n, ast.If) and isinstance(n.test, ast.Compare) and isinstance(n.test.left, ast.Name)
+                  and n.test.left.id == 'file_type']
+        con = 'an unknown file_type is rejected before the existing file is removed'
+        if not rem or not chains:
+            obs.unk(rule, q, con, 'removal / dispatch on file_type not found in this function (delegated)', where(prog, f, f.node))
+            continue
+        first_rem = min(so.get(id(c), 0) for c in rem)
+        # validated before the removal: a raise guarded by a test on file_type that precedes remove_file
+        early = [n for n in ast.walk(f.node) if isinstance(n, ast.If) and any(isinstance(x, ast.Name) and x.id == 'file_type' for x in ast.walk(n.test))
+                 and any(isinstance(x, ast.Raise) for x in n.body) and so.get(id(n), 0) < first_rem]
+        # or the chain itself ends in a raise and runs before the removal
+        top = [n for n in chains if not any(n in o.orelse for o in chains)]
+        tail = top[0]
+        while len(tail.orelse) == 1 and isinstance(tail.orelse[0], ast.If):
+            tail = tail.orelse[0]
+        chain_raises = bool(tail.orelse) and any(isinstance(x, ast.Raise) for x in tail.orelse)
+        if early or (chain_raises and so.get(id(top[0]), 0) < first_rem):
+            obs.ok(rule, q, con, '', where(prog, f, top[0]))
+        else:
+            obs.bad(rule, q, con, f'`{norm(rem[0])}` runs for every file_type, and the chain `if file_type == ..` has no raising else: '
+                    f'save(name, file_type="h5", overwrite=True) deletes the existing file and writes nothing, silently',
+                    where(prog, f, rem[0]))
 
 
 def reader_reads_attributes(ctx, obs, rule='EXH-read'):
